@@ -87,10 +87,22 @@ impl PacketFilter for Script {
     }
 }
 
+/// application-level wrappers around the library's table filters: log which packet is being consumed
+pub struct PatWrap { serial: u64, inner: demultiplex::PatPacketFilter<Ctx> }
+impl PacketFilter for PatWrap {
+    type Ctx = Ctx;
+    fn consume(&mut self, ctx: &mut Ctx, pk: &Packet<'_>) { log(&[2, self.serial, goff(pk.buffer()), 0]); self.inner.consume(ctx, pk); }
+}
+pub struct PmtWrap { serial: u64, inner: demultiplex::PmtPacketFilter<Ctx> }
+impl PacketFilter for PmtWrap {
+    type Ctx = Ctx;
+    fn consume(&mut self, ctx: &mut Ctx, pk: &Packet<'_>) { log(&[2, self.serial, goff(pk.buffer()), 0]); self.inner.consume(ctx, pk); }
+}
+
 mpeg2ts_reader::packet_filter_switch! {
     Sw<Ctx> {
-        Pat: demultiplex::PatPacketFilter<Ctx>,
-        Pmt: demultiplex::PmtPacketFilter<Ctx>,
+        Pat: PatWrap,
+        Pmt: PmtWrap,
         Pes: PesWrap,
         Rec: Rec,
         Script: Script,
@@ -120,7 +132,7 @@ impl DemuxContext for Ctx {
             FilterRequest::ByPid(p) => {
                 let p = u16::from(p);
                 log(&[1, s, 0, p as u64]);
-                if p == 0 { Sw::Pat(demultiplex::PatPacketFilter::default()) }
+                if p == 0 { Sw::Pat(PatWrap { serial: s, inner: demultiplex::PatPacketFilter::default() }) }
                 else if self.scripts.contains_key(&p) { self.mk(&Kind::Script(p), s) }
                 else { self.mk(&Kind::Rec, s) }
             }
@@ -136,7 +148,7 @@ impl DemuxContext for Ctx {
             }
             FilterRequest::Pmt { pid, program_number } => {
                 log(&[1, s, 2, u16::from(pid) as u64, program_number as u64]);
-                Sw::Pmt(demultiplex::PmtPacketFilter::new(pid, program_number))
+                Sw::Pmt(PmtWrap { serial: s, inner: demultiplex::PmtPacketFilter::new(pid, program_number) })
             }
             FilterRequest::Nit { pid } => { log(&[1, s, 3, u16::from(pid) as u64]); self.mk(&Kind::Rec, s) }
         }
